@@ -248,8 +248,13 @@ func poolErrClass(err error) string {
 	return storeErrClass(err)
 }
 
+// alteredArgs, when set by the caller, is what sig kind "alteredparam" signs instead of the real arguments
+// (one parameter field changed after signing).
+var alteredArgs []interface{}
+
 // sign produces the signature token's real signature string.
 func signKind(kind string, who *identity, method string, nonce int64, args ...interface{}) string {
+	defer func() { alteredArgs = nil }()
 	good := func(k *identity) string {
 		s, err := request.Sign(k.key, method, who.id, nonce, args...)
 		if err != nil {
@@ -294,6 +299,21 @@ func signKind(kind string, who *identity, method string, nonce int64, args ...in
 		return s
 	case "wrongnonce":
 		s, _ := request.Sign(who.key, method, who.id, nonce+1, args...)
+		return s
+	case "alteredparam":
+		if alteredArgs == nil {
+			s, _ := request.Sign(who.key, method, who.id, nonce+7, args...)
+			return s
+		}
+		s, _ := request.Sign(who.key, method, who.id, nonce, alteredArgs...)
+		return s
+	case "otherident":
+		// a genuine signature of another registered identity over the same request
+		other := nodeIdents[0]
+		if other == who {
+			other = nodeIdents[1]
+		}
+		s, _ := request.Sign(other.key, method, other.id, nonce, args...)
 		return s
 	}
 	fatal("unknown sig kind " + kind)
@@ -425,6 +445,9 @@ func (c *poolComp) exec(t []string) (extra []string, out string, eff bool) {
 			Payout:   realID(get("payout")),
 			NodeURI:  renderOverride(t, who.id),
 		}
+		altReq := req
+		altReq.Payout = req.Payout + "x"
+		alteredArgs = []interface{}{altReq}
 		sig := signKind(t[4], who, "vipnode_connect", nonce, req)
 		ctx := ctxBG
 		if connName != "" {
@@ -468,6 +491,9 @@ func (c *poolComp) exec(t []string) (extra []string, out string, eff bool) {
 				BlockNumber uint64   `json:"block_number"`
 			}{req.Peers, req.BlockNumber})
 		} else {
+			altReq := req
+			altReq.BlockNumber = req.BlockNumber + 1
+			alteredArgs = []interface{}{altReq}
 			sig = signKind(t[3], who, "vipnode_update", nonce, req)
 		}
 		c.mgrNow, _ = parseT(get("mnow"))
@@ -513,6 +539,7 @@ func (c *poolComp) exec(t []string) (extra []string, out string, eff bool) {
 		c.times = append(c.times, nonce)
 		num, _ := strconv.Atoi(get("num"))
 		req := pool.PeerRequest{Num: num, Kind: get("kind")}
+		alteredArgs = []interface{}{pool.PeerRequest{Num: num + 1, Kind: req.Kind}}
 		sig := signKind(t[3], who, "vipnode_peer", nonce, req)
 		for k := range c.outcomes {
 			delete(c.outcomes, k)
@@ -553,6 +580,76 @@ func (c *poolComp) exec(t []string) (extra []string, out string, eff bool) {
 			return x, o, false
 		}
 		return x, fmt.Sprintf("ok hosts=%s wl=%s", JoinC(canonList(nodeIDs(resp.Peers))), wl), true
+	case "host":
+		connName, who := Untok(t[1]), identByName[t[2]]
+		nonce, _ := parseT(t[3])
+		c.times = append(c.times, nonce)
+		req := pool.HostRequest{Kind: Untok(t[5]), Payout: realID(get("payout")), NodeURI: renderOverride(t, who.id)}
+		alteredArgs = []interface{}{pool.HostRequest{Kind: req.Kind, Payout: req.Payout, NodeURI: req.NodeURI + "?x=1"}}
+		sig := signKind(t[4], who, "vipnode_host", nonce, req)
+		ctx := ctxBG
+		if connName != "" {
+			fc := c.conn(connName)
+			if src := get("src"); src != "" {
+				fc.addr = net.JoinHostPort(src, "51234")
+			} else {
+				fc.addr = ""
+			}
+			ctx = jsonrpc2.VerifWithService(ctx, fc)
+		}
+		before, had := c.lastSeen(who.id)
+		t0 := time.Now().UnixNano()
+		_, err := c.p.Host(ctx, sig, who.id, nonce, req)
+		x := []string{"now=" + TTok(c.observedNow(who.id, before, had, t0))}
+		if err != nil {
+			return x, poolErrClass(err), false
+		}
+		return x, "ok", true
+	case "client":
+		connName, who := Untok(t[1]), identByName[t[2]]
+		nonce, _ := parseT(t[3])
+		c.times = append(c.times, nonce)
+		num, _ := strconv.Atoi(get("num"))
+		req := pool.ClientRequest{Kind: Untok(t[5]), NumHosts: num}
+		alteredArgs = []interface{}{pool.ClientRequest{Kind: req.Kind, NumHosts: num + 1}}
+		sig := signKind(t[4], who, "vipnode_client", nonce, req)
+		ctx := ctxBG
+		if connName != "" {
+			ctx = jsonrpc2.VerifWithService(ctx, c.conn(connName))
+		}
+		for k := range c.outcomes {
+			delete(c.outcomes, k)
+		}
+		if ol, ok := FindArg("outcomes", t); ok {
+			for _, o := range ol {
+				kv := strings.SplitN(o, ":", 2)
+				if len(kv) == 2 && kv[1] != "hang" {
+					c.outcomes[kv[0]] = kv[1]
+				}
+			}
+		}
+		c.rec.mu.Lock()
+		c.rec.activeSeen, c.rec.lastActive = false, nil
+		c.rec.mu.Unlock()
+		before, had := c.lastSeen(who.id)
+		t0 := time.Now().UnixNano()
+		resp, err := c.p.Client(ctx, sig, who.id, nonce, req)
+		now := c.observedNow(who.id, before, had, t0)
+		c.rec.mu.Lock()
+		choice := canonSlice(c.rec.lastActive)
+		c.rec.mu.Unlock()
+		x := []string{"now=" + TTok(now), "choice=" + JoinC(choice)}
+		wl := c.callsByHost("vipnode_whitelist")
+		if err != nil {
+			o := poolErrClass(err)
+			if strings.HasPrefix(o, "err NoHosts") || strings.HasPrefix(o, "err RemoteErrors") {
+				o += " wl=" + wl
+			} else if wl != "" {
+				o += " unexpected-wl=" + wl
+			}
+			return x, o, false
+		}
+		return x, fmt.Sprintf("ok hosts=%s wl=%s", JoinC(canonList(nodeIDs(resp.Hosts))), wl), true
 	case "close":
 		fc := c.conn(Untok(t[1]))
 		c.p.CloseRemote(fc)
@@ -562,6 +659,7 @@ func (c *poolComp) exec(t []string) (extra []string, out string, eff bool) {
 		nonce, _ := parseT(t[2])
 		c.times = append(c.times, nonce)
 		nodeID := realID(Untok(t[4]))
+		alteredArgs = []interface{}{nodeID + "0"}
 		sig := signKind(t[3], who, "pool_addNode", nonce, nodeID)
 		t0 := time.Now().UnixNano()
 		err := c.pay.AddNode(ctxBG, sig, who.id, nonce, nodeID)
@@ -677,7 +775,7 @@ func (g *poolGenState) nextNonce() string {
 
 func (g *poolGenState) sig() string {
 	if g.r.Intn(12) == 0 {
-		return pick(g.r, []string{"bad", "otherkey", "empty", "garbage", "wrongmethod", "wrongnonce", "short"})
+		return pick(g.r, []string{"bad", "otherkey", "empty", "garbage", "wrongmethod", "wrongnonce", "short", "alteredparam", "otherident"})
 	}
 	return "good"
 }
@@ -767,8 +865,13 @@ func genPoolMixed(r *rand.Rand, idx int, emit func(string)) {
 				}
 			}
 			emit(fmt.Sprintf("peer %s %s %s num=%d kind=%s outcomes=%s", pick(r, nodes), g.nextNonce(), g.sig(), []int{-3, -1, 0, 1, 1, 2, 3, 8}[r.Intn(8)], Tok(pick(r, []string{"", "", "geth", "parity"})), strings.Join(outs, ",")))
-		case k < 56:
+		case k < 54:
 			emit(fmt.Sprintf("close c%d", r.Intn(5)))
+		case k < 55:
+			emit(fmt.Sprintf("client ~ %s %s %s %s num=%d outcomes=", pick(r, nodes), g.nextNonce(), g.sig(), pick(r, []string{"geth", "parity", "~"}), []int{0, 0, -1, 1, 2, 5}[r.Intn(6)]))
+		case k < 56:
+			hn := pick(r, nodes)
+			emit(fmt.Sprintf("host c%d %s %s %s %s uset=1 uhost=7.7.7.%d uport=~ uuser=%s ubad=0 src=~ payout=%s", r.Intn(5), hn, g.nextNonce(), g.sig(), pick(r, []string{"geth", "parity", "~"}), r.Intn(3), hn, Tok(pick(r, []string{"", "w1"}))))
 		case k < 62:
 			emit(fmt.Sprintf("addnode %s %s %s %s", pick(r, []string{"w0", "w1", "w2"}), g.nextNonce(), g.sig(), pick(r, nodes)))
 		case k < 68:
